@@ -2394,5 +2394,66 @@ def cmd_marshsynth(args):
 CMDS["marshsynth"] = cmd_marshsynth
 
 
+
+# ---------------------------------------------------------------------------
+# C19 freeze() line tables
+
+
+def make_portable(ctype, n, firstlineno, table):
+    from xdis.codetype.code20 import Code2
+    from xdis.codetype.code30 import Code3
+    from xdis.codetype.code38 import Code38
+    from xdis.codetype.code310 import Code310
+
+    wide = ctype in ("Code3@3.7", "Code38", "Code310")
+    code = bytes([9, 0] * (n // 2)) if wide else bytes([9] * n)
+    common = dict(co_argcount=0, co_nlocals=0, co_stacksize=1, co_flags=64, co_code=code, co_consts=(None,), co_names=(),
+                  co_varnames=(), co_filename="<freeze>", co_name="f", co_firstlineno=firstlineno, co_freevars=(), co_cellvars=())
+    if ctype == "Code2":
+        return Code2(co_lnotab=table, **common)
+    if ctype.startswith("Code3@"):
+        return Code3(co_kwonlyargcount=0, co_lnotab=table, **common)
+    if ctype == "Code38":
+        return Code38(co_posonlyargcount=0, co_kwonlyargcount=0, co_lnotab=table, **common)
+    if ctype == "Code310":
+        return Code310(co_posonlyargcount=0, co_kwonlyargcount=0, co_linetable=table, **common)
+    raise ValueError(ctype)
+
+
+DECODER_VERSION = {"Code2": (2, 7), "Code3@3.5": (3, 5), "Code3@3.7": (3, 7), "Code38": (3, 8), "Code310": (3, 10)}
+
+
+def cmd_freeze(args):
+    from xdis.disasm import get_opcode
+
+    out = {"cases": []}
+    for c in args["cases"]:
+        ctype = c["ctype"]
+        pairs = list(zip(c["offsets"], c["lines"]))
+        table = dict(pairs) if c["form"] == "dict" else [tuple(p) for p in pairs]
+        rec = {}
+        try:
+            p = make_portable(ctype, c["code_len"], c["lines"][0], table)
+            p = p.freeze()
+            enc = p.co_linetable if ctype == "Code310" else p.co_lnotab
+            if isinstance(enc, str):
+                enc = enc.encode("latin-1")
+            rec["table"] = C.hexs(enc)
+            opc = get_opcode(DECODER_VERSION[ctype], False)
+            rec["decoded"] = [list(x) for x in opc.findlinestarts(p)]
+        except BaseException as e:
+            if isinstance(e, (KeyboardInterrupt, SystemExit)):
+                raise
+            tb = traceback.extract_tb(sys.exc_info()[2])
+            site = [t.name for t in tb if "/xdis/" in t.filename]
+            rec["error"] = "%s@%s" % (type(e).__name__, site[-1] if site else "?")
+            rec["msg"] = str(e)[:120]
+        out["cases"].append(rec)
+    return out
+
+
+CMDS["freeze"] = cmd_freeze
+
+
 if __name__ == "__main__":
     main()
